@@ -151,7 +151,8 @@ def parse_embedded_scalar(scalar, version=LATEST_VER):
         if version < VER_3_0:
             raise ValueError('XStr is not supported in Haystack version %s' \
                              % version)
-        return XStr(*scalar[2:].split(':'))
+        # x:<type>:<data>, the data may itself contain colons
+        return XStr(*scalar[2:].split(':', 1))
 
     # Is it a reference?
     match = REF_RE.match(scalar)
